@@ -27,7 +27,10 @@ STMTS = {
 
 # what may stand in front of the annotation line (after the previous statement's ';' or at the start of the file)
 PREFIXES = ["", "-- a comment about the query\n", "/* banner */\n", "/*\n * Authors\n */\n", "\n\n", "/* multi\n   line */\n-- and a line\n",
-            "-- name: First :exec\nDELETE FROM t WHERE n = $1;\n\n", "-- name: First :exec\nDELETE FROM t WHERE n = $1;\n/*\n * second part\n */\n\n"]
+            "-- name: First :exec\nDELETE FROM t WHERE n = $1;\n\n", "-- name: First :exec\nDELETE FROM t WHERE n = $1;\n/*\n * second part\n */\n\n",
+            # the annotation on the line of the previous statement's semicolon, or right after a trailing comment
+            "-- name: First :exec\nDELETE FROM t WHERE n = $1; ", "-- name: First :exec\nDELETE FROM t WHERE n = $1; -- done\n",
+            "-- name: First :exec\nDELETE FROM t WHERE n = $1;\t"]
 
 
 def ann(syntax, name, cmd):
@@ -205,10 +208,34 @@ def run(tier, seed):
         want = {nm: sorted(v) for nm, v in expect.items()}
         if got != want:
             rep.violation("the methods per query file %s are not the annotated statements %s" % (got, want), replay)
+    # --- D. MySQL: every annotated statement kind the dialect adds (REPLACE, INSERT ... SET, multi-row INSERT, INSERT IGNORE,
+    # ON DUPLICATE KEY UPDATE) yields its method - or a diagnostic, never silence
+    MY_SCHEMA = "CREATE TABLE t (id int PRIMARY KEY, name varchar(20), n int);\n"
+    MY_STMTS = ["REPLACE INTO t (id, name) VALUES (?, ?)", "REPLACE LOW_PRIORITY INTO t (id, name, n) VALUES (?, ?, ?)", "INSERT IGNORE INTO t (id, name) VALUES (?, ?)",
+                "INSERT INTO t (id, name) VALUES (?, ?), (?, ?)", "INSERT INTO t (id, name) VALUES (?, ?) ON DUPLICATE KEY UPDATE name = ?", "INSERT INTO t SET id = ?, name = ?",
+                "UPDATE t SET name = ? WHERE id = ? LIMIT 1", "DELETE FROM t WHERE id = ? LIMIT 1", "DELETE FROM t ORDER BY id LIMIT 2", "SELECT id FROM t WHERE id = ? LIMIT 1",
+                "SELECT SQL_NO_CACHE id, name FROM t", "INSERT INTO t (id) SELECT id FROM t WHERE n = ?", "UPDATE LOW_PRIORITY t SET n = n + 1", "TRUNCATE TABLE t"]
+    cfgm = json.dumps({"version": "1", "packages": [{"path": "db", "engine": "mysql", "schema": "schema.sql", "queries": "query.sql"}]})
+    my_cases = [(st, cmd) for st in MY_STMTS for cmd in ((":exec", ":execrows", ":execresult") if not st.startswith("SELECT") else (":one", ":many"))]
+    my_res = run_harness([{"op": "generate", "summary": True, "nofiles": True,
+                           "files": {"sqlc.json": cfgm, "schema.sql": MY_SCHEMA, "query.sql": "-- name: Keep :exec\nDELETE FROM t WHERE id = ?;\n\n%s\n%s;\n" % (ann("--", "TheQuery", cmd), st)}}
+                          for st, cmd in my_cases])
+    for (st, cmd), r in zip(my_cases, my_res):
+        rep.case(("mysql", st, cmd), nontrivial=True)
+        rep.count("mysql:%s" % ("accepted" if r.get("ok") else "rejected"))
+        replay = {"engine": "mysql", "stmt": st, "cmd": cmd, "stderr": r.get("stderr"), "panic": r.get("panic")}
+        if "panic" in r:
+            rep.violation("sqlc panics on an annotated MySQL statement: " + r["panic"][:100], replay)
+        elif r.get("ok"):
+            names = [m["name"] for m in r["summary"].get("db/query.sql.go", {}).get("methods", []) if m["recv"] == "Queries"]
+            if sorted(names) != ["Keep", "TheQuery"]:
+                rep.violation("an annotated MySQL statement yields no method and no diagnostic (methods: %s)" % names, replay)
+        elif not (r.get("stderr") or "").strip():
+            rep.violation("an annotated MySQL statement is rejected without a diagnostic", replay)
     rep.extra["exhaustive"] = tier != "quick"
     if getattr(rep, "proof_broken", None) and not rep.violations:
         rep.violation("proof obligation no longer checks: " + rep.proof_broken, {"theorem_file": "coq/theories/Props/C11.v", "detail": info}, no_input=True)
     return rep.finish("proof", ob, dis, checker_cmd(PROP),
-                      rule="(A) annotation lines: every command x comment syntax x name form plus malformed variants and random token strings, through metadata.Parse with three CommentSyntax settings, against the Gallina transcription; (B) the cross product 5 commands x 10 statement shapes (SELECT/INSERT/UPDATE/DELETE/TRUNCATE, with/without RETURNING, 0..3 parameters, 1..3 result columns) x 2 comment syntaxes x prepared x interface x 8 texts in front of the annotation (comments, multi-line block comments, blank lines, a preceding annotated statement) through sqlc generate (complete in thorough, a sample of 240 cells in quick), the emitted method's structure read back with go/parser and judged by Spec/Contract.v; (C) packages of 2-4 query files with unusual but valid file names (directory or path list): the methods per emitted file are the annotated statements of that file",
+                      rule="(A) annotation lines: every command x comment syntax x name form plus malformed variants and random token strings, through metadata.Parse with three CommentSyntax settings, against the Gallina transcription; (B) the cross product 5 commands x 10 statement shapes (SELECT/INSERT/UPDATE/DELETE/TRUNCATE, with/without RETURNING, 0..3 parameters, 1..3 result columns) x 2 comment syntaxes x prepared x interface x 11 texts in front of the annotation (comments, multi-line block comments, blank lines, a preceding annotated statement) through sqlc generate (complete in thorough, a sample of 240 cells in quick), the emitted method's structure read back with go/parser and judged by Spec/Contract.v; (C) packages of 2-4 query files with unusual but valid file names (directory or path list): the methods per emitted file are the annotated statements of that file",
                       assumptions=["the template half of the property is tied to the code by reading the emitted Go back (go/parser), not by a model of text/template",
                                    "query names are ASCII (unicode.IsLetter/IsDigit outside ASCII is not modelled)"])
